@@ -127,10 +127,11 @@ def authzBaseReq (now : Time) (client : Client) (q : AuthzReq) (rid : Nat) : Req
   { id := rid, client := client, requestedAt := now,
     reqScopes := appendAllUniq [] q.scopes, reqAud := appendAllUniq [] q.aud,
     grantedScopes := appendAllUniq [] q.grantScopes, grantedAud := appendAllUniq [] q.grantAud,
-    form := q.form, sess := { subject := q.subject } }
+    form := q.form, sess := { subject := q.subject, idSubject := q.subject } }
 
 /-- `NewAuthorizeRequest` (client lookup, scope and audience checks) + `NewAuthorizeResponse` -/
 def authorizeH (cfg : Config) (now : Time) (minNonce : Nat) (q : AuthzReq) : HP Out := do
+  HP.guard (!cfg.enforcePAR) .invalid_request     -- pushed authorization requests enforced, none sent
   let client ← expectClient (.getClient q.clientId) .invalid_client
   HP.guard (scopesAllowed cfg client (appendAllUniq [] q.scopes)) .invalid_scope
   optErr (audienceMatch cfg.audStrategy client.audience q.aud)
